@@ -8,7 +8,7 @@ from typing import Dict, List, Optional, Tuple
 from .. import consteval, decoders, normal, render, sym
 from ..model import AnalysisError, ClassInfo, Repo
 from ..oracles import darwin
-from ..report import Run
+from ..report import Run, take_over
 from ..sym import T, const, param
 
 EXPLANATION = (
@@ -428,6 +428,12 @@ def residual_of(conds, elem: T, value: int, name: str) -> Residual:
 
 # ------------------------------------------------------------------ check
 def check(repo: Repo, run: Run) -> None:
+    take_over(run, "c09", "C09", repo, lambda o: o["rule"] == "R1" and (o.get("facts") or {}).get("symbolic"), "R0",
+              "the word whose bits are named", "the names shown at a position stand for the bits of the argument at that position: "
+              "decoded from another argument's word they are the names of bits that word has, not of the bits set in the value", 30)
+    take_over(run, "c20", "C20", repo, lambda o: o["rule"] == "R1" and o["construct"] == "pid/protection rendered whenever present",
+              "R0", "protections of a page fault shown whenever recorded", "the protections of the nested record are a flag word "
+              "shown by name: hidden for pid 0 the set bits with a declared name are not shown", 1)
     interp = sym.Interp(repo)
     _REPO[:] = [repo]
     # ---------------- R1 Darwin values
